@@ -156,7 +156,7 @@ class CubicBezier(ArcLengthMixin, Segment):
         b = -3 * pa + 3 * pb
         c = pa
         d = -pa + 3 * pb - 3 * pc + pd
-        if abs(d) <= 1e-4 * max(abs(a), abs(b), abs(c)):
+        if abs(d) <= 1e-6 * max(abs(a), abs(b), abs(c)):
             # Not (usefully) a cubic in this dimension: solve the quadratic
             # a t^2 + b t + c instead; when d is merely tiny, let Newton's
             # method pull the quadratic's roots onto the cubic's.
